@@ -11,7 +11,8 @@ import (
 )
 
 // TestZZ is an experiment helper (not run by the driver):
-//   ZZ_LINES='rewrite ^/old$ /a.html;redir /a.html /new' ZZ_REQS='GET /old?k=v;POST /x' go test -tags verif -run TestZZ -v ./cx09rewrite/
+//
+//	ZZ_LINES='rewrite ^/old$ /a.html;redir /a.html /new' ZZ_REQS='GET /old?k=v;POST /x' go test -tags verif -run TestZZ -v ./cx09rewrite/
 func TestZZ(t *testing.T) {
 	if os.Getenv("ZZ_LINES") == "" {
 		t.Skip()
